@@ -35,8 +35,9 @@ TRUSTED = [
 ASSUMPTIONS = ["per-part codec laws (sig_ok S) are hypotheses, validated here only through the whole-font oracle",
                "OS errors (disk full, permissions) are outside the model"]
 
-KNOWN_GEN = {"glyph_lib_linebreak": "glyph_lib_linebreaks", "note_blanks": "note_blanks", "flush_to_zero": "f2_numbers",
-             "advance_subnormal": "subnormal_advance"}
+KNOWN_GEN = {"glyph_lib_linebreak": "glyph_lib_linebreaks", "note_blanks": "note_blanks"}
+# generator switches of repaired / harmless classes: part of the main stream
+MAIN_GEN = ["f13_meta", "cr_in_plist", "cr_in_note", "attr_ws", "empty_contours", "f2_numbers", "subnormal_advance"]
 
 
 def anchors(ctx):
@@ -212,11 +213,12 @@ def run(ctx, known, built):
             _stream(ctx, fc, "witness", ctx.seed, len(ws), [], known_ids, stats, None, fonts_file=ff)
             for fn, w in ws:
                 c = w.get("class", "").split("_kerning")[0].split("_info")[0]
+                if c.startswith("regression"):
+                    continue
                 if stats["class_hits"].get(c, 0) == before.get(c, 0):
                     stale.append(fn)
     ctx.note("witnesses done")
-    main_fonts = _stream(ctx, fc, "main", ctx.seed, n_main, ["f13_meta", "cr_in_plist", "cr_in_note", "attr_ws", "empty_contours"],
-                         known_ids, stats, corr)
+    main_fonts = _stream(ctx, fc, "main", ctx.seed, n_main, MAIN_GEN, known_ids, stats, corr)
     ctx.note("main stream done")
     sp = special_fonts(main_fonts[:n_special])
     if sp:
@@ -225,7 +227,7 @@ def run(ctx, known, built):
         _stream(ctx, fc, "special", ctx.seed, len(sp), [], known_ids, stats, corr, fonts_file=ff)
     ctx.note("special cases done")
     for cid, sw in sorted(KNOWN_GEN.items()):
-        _stream(ctx, fc, "g_" + sw, ctx.seed + 17, n_class, [sw, "f13_meta"], known_ids, stats, None)
+        _stream(ctx, fc, "g_" + sw, ctx.seed + 17, n_class, [sw] + MAIN_GEN, known_ids, stats, None)
     ctx.note("class streams done")
     nd = 0
     if not built:
